@@ -1149,4 +1149,219 @@ theorem sim_setVal (o : Opts) (A : AState) (hi : AInv o A) (k : Str) (b : BlockR
     rw [hasItem_tree o A hi b, hhas]
     rfl
 
+/-! ### reading back: cif_container_get_value after cif_container_set_value (property C07, route `parser`) -/
+
+theorem find?_congr_mem {α} (p q : α → Bool) : ∀ l : List α, (∀ z ∈ l, p z = q z) → l.find? p = l.find? q
+  | [], _ => rfl
+  | x :: r, h => by
+    simp only [List.find?_cons, h x List.mem_cons_self, find?_congr_mem p q r (fun z hz => h z (List.mem_cons_of_mem _ hz))]
+
+/-- the first loop of the container that has the item holds `v` in the item's cell of every packet, and has a packet: get_value
+    delivers `v` -/
+theorem getVal_of_column (A : AState) (h : CH) (nm : Name) (v : V) (x : ALoop) (hv : nm.valid = true)
+    (hf : A.loops.find? (fun y => y.cid == h.id && y.hasItem nm.key) = some x) (hne : x.packets ≠ [])
+    (hcell : ∀ p ∈ x.packets, p.getD (x.items.findIdx (fun it => it.1 == nm.key)) V.unk = v) :
+    ∃ amb, Store.specGetValue A h (some nm) = .ok (v, amb) := by
+  unfold Store.specGetValue AState.columnOf
+  simp only [hv, Bool.not_true, Bool.false_eq_true, if_false, hf, ALoop.column]
+  cases hp : x.packets with
+  | nil => exact absurd hp hne
+  | cons p r =>
+    have h1 : p.getD (x.items.findIdx (fun it => it.1 == nm.key)) V.unk = v := hcell p (by rw [hp]; exact List.mem_cons_self)
+    cases r with
+    | nil => exact ⟨false, by simp only [List.map_cons, List.map_nil, h1]⟩
+    | cons p2 r2 => exact ⟨true, by simp only [List.map_cons, h1]⟩
+
+theorem zipmap_getD (k : Str) (v : V) : ∀ (items : List (Str × Str)) (p : List V), items.any (fun it => it.1 == k) = true →
+    p.length = items.length →
+    ((items.zip p).map (fun e => if e.1.1 == k then v else e.2)).getD (items.findIdx (fun it => it.1 == k)) V.unk = v
+  | [], _, h, _ => by simp at h
+  | it :: r, p, h, hl => by
+    cases p with
+    | nil => simp at hl
+    | cons c p' =>
+      simp only [List.zip_cons_cons, List.map_cons, List.findIdx_cons]
+      by_cases hk : (it.1 == k) = true
+      · simp only [hk, if_true, cond_true, List.getD_cons_zero]
+      · have hk' : (it.1 == k) = false := by simpa using hk
+        simp only [hk', Bool.false_eq_true, if_false, cond_false, List.getD_cons_succ]
+        apply zipmap_getD k v r p'
+        · simpa [List.any_cons, hk'] using h
+        · simpa using hl
+
+theorem findIdx_none_length {α} (p : α → Bool) : ∀ l : List α, (∀ x ∈ l, p x = false) → l.findIdx p = l.length
+  | [], _ => rfl
+  | x :: r, h => by
+    simp only [List.findIdx_cons, h x List.mem_cons_self, cond_false, List.length_cons,
+      findIdx_none_length p r (fun y hy => h y (List.mem_cons_of_mem _ hy))]
+
+theorem getD_append_len {α} (l : List α) (a d : α) : (l ++ [a]).getD l.length d = a := by
+  simp [List.getD]
+
+theorem find?_map_inv {α} (G : α → α) (p : α → Bool) : ∀ l : List α, (∀ z ∈ l, p (G z) = p z) → (l.map G).find? p = (l.find? p).map G
+  | [], _ => rfl
+  | x :: r, h => by
+    simp only [List.map_cons, List.find?_cons, h x List.mem_cons_self]
+    cases p x with
+    | true => rfl
+    | false => exact find?_map_inv G p r (fun z hz => h z (List.mem_cons_of_mem _ hz))
+
+/-- **set_value then get_value, existing item**: when the item's loop has a packet, get_value delivers the value just set -/
+theorem reads_existing (o : Opts) (A : AState) (hi : AInv o A) (b : BlockRow) (h : CH) (hh : h.id = b.cid) (n : Str) (v : V)
+    (hvn : isValidName true n = true) (hok : LoopsOk o (loopsOf A b.cid)) (hrect : LoopsRect (loopsOf A b.cid))
+    (hhas : A.hasItem b.cid (o.norm n) = true) :
+    ∃ y, y ∈ A.loops ∧ y.cid = b.cid ∧ y.hasItem (o.norm n) = true ∧
+      (y.packets ≠ [] → ∀ A', Store.specSetValue A h (some (mkName o true n)) (some v) = (A', .ok ()) →
+        ∃ amb, Store.specGetValue A' h (some (mkName o true n)) = .ok (v, amb)) := by
+  obtain ⟨y, hF, hym, hyc, hyk⟩ := holder o A hi b.cid (o.norm n) hok hhas
+  refine ⟨y, hym, hyc, hyk, ?_⟩
+  intro hne A' hA'
+  have hkey : (mkName o true n).key = o.norm n := rfl
+  have hgi : Store.specGetItemLoop A h (some (mkName o true n)) = .ok { cid := h.id, loopNum := y.num, category := y.category } := by
+    unfold Store.specGetItemLoop
+    have hv : (mkName o true n).valid = true := hvn
+    simp only [hv, Bool.not_true, Bool.false_eq_true, if_false, hkey, hh, hF]
+  have hspec := Store.specSetValue_existing A h (mkName o true n) (some v) _ hvn hgi
+  simp only [hkey, Option.getD_some, hh] at hspec
+  rw [hspec] at hA'
+  have hAe : A' = A.onLoop b.cid y.num (fun z => z.setColumn (o.norm n) v) := (Prod.mk.inj hA').1.symm
+  subst hAe
+  have hyL : y ∈ A.loops.filter (fun z => z.cid == b.cid) := List.mem_filter.mpr ⟨hym, by simp [hyc]⟩
+  obtain ⟨hnd, hr⟩ := loop_facts o A hi b.cid hok hrect y hyL
+  have hfind0 : A.loops.find? (fun z => z.cid == b.cid && z.hasItem (o.norm n)) = some y := by
+    rw [← List.head?_filter, hF]; rfl
+  apply getVal_of_column _ h (mkName o true n) v (y.setColumn (o.norm n) v) hvn
+  · show (A.loops.map _).find? _ = _
+    rw [hkey, hh, find?_map_inv _ _ A.loops, hfind0]
+    · simp only [Option.map_some]
+      have : (y.cid == b.cid && y.num == y.num) = true := by simp [hyc]
+      simp only [this, if_true]
+    · intro z _
+      split <;> rfl
+  · show y.packets.map _ ≠ []
+    intro e
+    exact hne (List.map_eq_nil_iff.mp e)
+  · intro p hp
+    obtain ⟨p0, hp0, rfl⟩ := List.mem_map.mp hp
+    exact zipmap_getD (o.norm n) v y.items p0 hyk (hr p0 hp0)
+
+/-- **set_value then get_value, new item**: get_value delivers the value just stored, whatever the container held -/
+theorem reads_new (o : Opts) (A : AState) (hi : AInv o A) (b : BlockRow) (hb : b ∈ A.blocks) (h : CH) (hh : h.id = b.cid) (n : Str) (v : V)
+    (hvn : isValidName true n = true) (hok : LoopsOk o (loopsOf A b.cid)) (hrect : LoopsRect (loopsOf A b.cid))
+    (hhas : A.hasItem b.cid (o.norm n) = false) :
+    ∀ A', Store.specSetValue A h (some (mkName o true n)) (some v) = (A', .ok ()) →
+      ∃ amb, Store.specGetValue A' h (some (mkName o true n)) = .ok (v, amb) := by
+  intro A' hA'
+  have hkey : (mkName o true n).key = o.norm n := rfl
+  have horig : (mkName o true n).orig = n := rfl
+  have hno : ∀ z ∈ A.loops, (z.cid == b.cid && z.hasItem (o.norm n)) = false := by
+    intro z hz
+    unfold AState.hasItem at hhas
+    exact List.any_eq_false.mp hhas z hz |> fun h => by simpa using h
+  have hitem : A.loops.filter (fun y => y.cid == h.id && y.hasItem (mkName o true n).key) = [] := by
+    rw [List.filter_eq_nil_iff, hh, hkey]
+    intro y hy hp
+    rw [hno y hy] at hp; cases hp
+  have hsl := scalar_loops o A b.cid hok
+  cases hS : A.loops.filter (fun z => z.cid == b.cid && z.category == some []) with
+  | nil =>
+    obtain ⟨c, hc, hcb, hfind⟩ := find_container o A hi b hb
+    have hfresh : A.findLoop h.id c.nextLoopNum = none := by rw [hh, ← hcb]; exact findLoop_fresh o A hi c hc
+    have hspec := Store.specSetValue_creates A h (mkName o true n) (some v) c hvn (by rw [hh]; exact hfind) hitem (by rw [hh]; exact hS) hfresh
+    simp only [hkey, horig, Option.getD_some, hh] at hspec
+    rw [hspec] at hA'
+    have hAe := (Prod.mk.inj hA').1.symm
+    subst hAe
+    let x : ALoop := { cid := b.cid, num := c.nextLoopNum, category := some [], items := [(o.norm n, n)], packets := [[v]] }
+    apply getVal_of_column _ h (mkName o true n) v x hvn
+    · show (A.loops ++ [x]).find? _ = _
+      rw [hkey, hh, List.find?_append]
+      have : A.loops.find? (fun y => y.cid == b.cid && y.hasItem (o.norm n)) = none := by
+        rw [List.find?_eq_none]
+        intro z hz
+        rw [hno z hz]; simp
+      rw [this]
+      simp [x, ALoop.hasItem]
+    · simp [x]
+    · intro p hp
+      simp only [x, List.mem_singleton] at hp
+      subst hp
+      simp [x, hkey, List.findIdx_cons]
+  | cons y rest =>
+    have hrest : rest = [] := by
+      rw [hS] at hsl
+      cases rest with
+      | nil => rfl
+      | cons _ _ => simp at hsl
+    subst hrest
+    have hyS : y ∈ A.loops.filter (fun z => z.cid == b.cid && z.category == some []) := by rw [hS]; exact List.mem_cons_self
+    obtain ⟨hym, hyp⟩ := List.mem_filter.mp hyS
+    simp only [Bool.and_eq_true, beq_iff_eq] at hyp
+    obtain ⟨hyc, hycat⟩ := hyp
+    have hspec := Store.specSetValue_joins A h (mkName o true n) (some v) y hvn hitem (by rw [hh]; exact hS)
+      (fun z hz hk => by
+        simp only [Bool.and_eq_true, beq_iff_eq] at hk
+        exact hi.loopKeys z hz y hym hk.1 hk.2)
+    simp only [hkey, horig, Option.getD_some] at hspec
+    rw [hspec] at hA'
+    have hAe := (Prod.mk.inj hA').1.symm
+    subst hAe
+    have hyL : y ∈ A.loops.filter (fun z => z.cid == b.cid) := List.mem_filter.mpr ⟨hym, by simp [hyc]⟩
+    obtain ⟨_, hr⟩ := loop_facts o A hi b.cid hok hrect y hyL
+    have hylack : ∀ it ∈ y.items, (it.1 == o.norm n) = false := by
+      have := hno y hym
+      simp only [hyc, beq_self_eq_true, Bool.true_and] at this
+      unfold ALoop.hasItem at this
+      exact fun it hit => List.any_eq_false.mp this it hit |> fun h => by simpa using h
+    let y' : ALoop := { y with
+      items := y.items ++ [(o.norm n, n)]
+      packets := (if y.packets.isEmpty then [y.items.map (fun _ => V.unk) ++ [v]] else y.packets.map (· ++ [v])) }
+    have hidx : y'.items.findIdx (fun it => it.1 == o.norm n) = y.items.length := by
+      show (y.items ++ [(o.norm n, n)]).findIdx _ = _
+      rw [List.findIdx_append, findIdx_none_length _ _ hylack]
+      simp [List.findIdx_cons]
+    apply getVal_of_column _ h (mkName o true n) v y' hvn
+    · show (A.loops.map _).find? _ = _
+      rw [hkey, hh, List.find?_map]
+      have hcg : A.loops.find? ((fun z => z.cid == b.cid && z.hasItem (o.norm n)) ∘
+          fun z => if (z.cid == y.cid && z.num == y.num) = true then y' else z) =
+          A.loops.find? (fun z => z.cid == y.cid && z.num == y.num) := by
+        apply find?_congr_mem
+        intro z hz
+        simp only [Function.comp]
+        by_cases hm : (z.cid == y.cid && z.num == y.num) = true
+        · simp only [hm, if_true]
+          simp [y', hyc, ALoop.hasItem]
+        · have hm' : (z.cid == y.cid && z.num == y.num) = false := by simpa using hm
+          simp only [hm', Bool.false_eq_true, if_false]
+          exact hno z hz
+      rw [hcg]
+      have := findLoop_of_mem o A hi y hym
+      unfold AState.findLoop at this
+      rw [this]
+      have hself : (y.cid == y.cid && y.num == y.num) = true := by simp
+      simp only [Option.map_some, hself, if_true]
+      rfl
+    · show (if y.packets.isEmpty then _ else _) ≠ []
+      cases hp : y.packets with
+      | nil => simp
+      | cons p r => simp
+    · intro p hp
+      rw [hkey, hidx]
+      have hp' : p ∈ (if y.packets.isEmpty then [y.items.map (fun _ => V.unk) ++ [v]] else y.packets.map (· ++ [v])) := hp
+      cases hpk : y.packets with
+      | nil =>
+        rw [hpk] at hp'
+        simp only [List.isEmpty_nil, if_true, List.mem_singleton] at hp'
+        subst hp'
+        have := getD_append_len (y.items.map (fun _ => V.unk)) v V.unk
+        simpa using this
+      | cons q r =>
+        rw [hpk] at hp'
+        simp only [List.isEmpty_cons, Bool.false_eq_true, if_false] at hp'
+        obtain ⟨p0, hp0, rfl⟩ := List.mem_map.mp hp'
+        have hl := hr p0 (by rw [hpk]; exact hp0)
+        rw [← hl]
+        exact getD_append_len p0 v V.unk
+
 end CifModel.ParserSim
